@@ -89,10 +89,14 @@ structure Cfg where
   pairLtLex : Bool
   deriving DecidableEq, Repr
 
+/-- the mirror below follows the repaired name generator of `get_type_layout` (generated names made different from
+every declared one): with the old shape (`generatedNamesFresh = some false`) or an unknown one there is no
+configuration, the model refuses to run and `C12.source_shape` does not close -/
 def cfg? : Option Cfg :=
-  match Generated.C12.sourceRecognised, Generated.C12.unitHashable, Generated.C12.pairLtLexicographic with
-  | some (), some u, some p => some ⟨u, p⟩
-  | _, _, _ => none
+  match Generated.C12.sourceRecognised, Generated.C12.generatedNamesFresh, Generated.C12.unitHashable,
+    Generated.C12.pairLtLexicographic with
+  | some (), some true, some u, some p => some ⟨u, p⟩
+  | _, _, _, _ => none
 
 /-! ### Python equality / hashability of objects (dict keys, `set(...)`) -/
 
@@ -266,20 +270,50 @@ def Ty.isEnum : Ty → Bool
   | .or _ l r => allUnits l && allUnits r
   | _ => false
 
-/-! ### `get_type_layout(flat_args, infer_names, entrypoints=False)` -/
+/-! ### `get_type_layout(flat_args, infer_names, entrypoints=False)` (types/adt.py, repaired shape)
 
-/-- the loop: `(reserved, path_to_key)` -/
-def layoutGo : List (Path × Ty) → Nat → List String → List (Path × String) → List String × List (Path × String)
-  | [], _, reserved, acc => (reserved, acc)
-  | (path, arg) :: rest, i, reserved, acc =>
+Two loops.  The first keeps every declared name (`%field`, else `:type`) at its first occurrence and gives the other
+arguments the candidate `f'{arg.prim}_{i}'`, remembering which ones (`generated`).  The second makes every candidate
+differ from all declared names — wherever they are declared, before or after it — and from the generated names chosen
+before it: `while name in taken: name += '_'`.  (The pinned tree had only the first loop: `pair (nat %nat_1) nat` got
+the names `nat_1`, `nat_1`.) -/
+
+/-- `f'{arg.prim}_{i}'` -/
+def genName (arg : Ty) (i : Nat) : String := arg.prim ++ "_" ++ toString i
+
+/-- first loop: one entry `(path, name, generated?)` per argument, in order; `reserved` = declared names kept so far -/
+def layoutGo : List (Path × Ty) → Nat → List String → List (Path × String × Bool)
+  | [], _, _ => []
+  | (path, arg) :: rest, i, reserved =>
     let key := match arg.ann.field with
       | some k => some k
       | none => arg.ann.type
     match key with
     | some k =>
-      if k ∈ reserved then layoutGo rest (i + 1) reserved (acc ++ [(path, arg.prim ++ "_" ++ toString i)])
-      else layoutGo rest (i + 1) (k :: reserved) (acc ++ [(path, k)])
-    | none => layoutGo rest (i + 1) reserved (acc ++ [(path, arg.prim ++ "_" ++ toString i)])
+      if k ∈ reserved then (path, genName arg i, true) :: layoutGo rest (i + 1) reserved
+      else (path, k, false) :: layoutGo rest (i + 1) (k :: reserved)
+    | none => (path, genName arg i, true) :: layoutGo rest (i + 1) reserved
+
+/-- `reserved` when the first loop ends: the declared names that were kept -/
+def declared : List (Path × String × Bool) → List String
+  | [] => []
+  | (_, k, false) :: rest => k :: declared rest
+  | (_, _, true) :: rest => declared rest
+
+/-- `while name in taken: name += '_'`, at most `fuel` iterations -/
+def freshGo : Nat → List String → String → String
+  | 0, _, name => name
+  | fuel + 1, taken, name => if name ∈ taken then freshGo fuel taken (name ++ "_") else name
+
+/-- the loop leaves after at most `len(taken)` iterations (every iteration uses up one element of `taken`: the
+candidates get longer) — `fresh_not_mem` below shows that the fuel is never exhausted -/
+def fresh (taken : List String) (name : String) : String := freshGo (taken.length + 1) taken name
+
+/-- second loop: `taken` = declared names and the generated names fixed so far -/
+def renameGo : List (Path × String × Bool) → List String → List (Path × String)
+  | [], _ => []
+  | (path, k, false) :: rest, taken => (path, k) :: renameGo rest taken
+  | (path, k, true) :: rest, taken => (path, fresh taken k) :: renameGo rest (fresh taken k :: taken)
 
 structure Layout where
   pathToKey : Option (List (Path × String))
@@ -288,7 +322,9 @@ structure Layout where
   deriving Repr
 
 def getTypeLayout (flat : List (Path × Ty)) (inferNames : Bool) : Layout :=
-  let (reserved, p2k) := layoutGo flat 0 [] []
+  let first := layoutGo flat 0 []
+  let reserved := declared first
+  let p2k := renameGo first reserved
   let idx := p2k.map (·.1)
   if reserved.isEmpty && !inferNames then ⟨none, none, idx⟩
   else ⟨some p2k, some (p2k.foldl (fun d e => dset d e.2 e.1) []), idx⟩
@@ -548,7 +584,7 @@ mutual
       match py with
       | .list xs => (mapE (ofPy c t) xs).map .list
       | _ => .error .assertion
-    | .set a t, py =>
+    | .set _ t, py =>
       match py with
       | .list xs =>
         if !(xs.all (PyObj.hashable c)) then .error .type
@@ -593,12 +629,6 @@ end Impl.PyConv
 namespace Spec.PyConv
 open Impl.PyConv
 
-/-- the field names of a layout are pairwise different (a tuple layout has none) -/
-def namesNodup (lay : Layout) : Bool :=
-  match lay.pathToKey with
-  | some p2k => decide ((p2k.map (·.2)).Nodup)
-  | none => true
-
 /-- the Python object of a value of this (comparable) type contains the `Unit` sentinel -/
 def pyHasUnit : Ty → Bool
   | .scalar _ .unit => true
@@ -615,23 +645,19 @@ def hasPair : Ty → Bool
 
 mutual
   /-- `inv c cmp τ`: `from_python_object(to_python_object(v, comparable=cmp)) = v` holds for every `v : τ`.
-  Excluded, and only these:
+  Excluded, and only these (field names play no role: `C12.field_names_unique` holds for every type):
   * `option (option _)` — `Some None` and `None` are both Python `None` (inherent to the documented mapping);
-  * a pair (outside key position) / union whose layout has two equal field names — a generated `prim_i` name that
-    equals a declared one;
   * a list / set / map / big_map in key position (not comparable: `to_python_object` asserts);
   * a set element / map key type whose object contains `Unit` while `class unit` has no `__hash__`;
   * a set of pairs while `PairType.__lt__` is not lexicographic (the order `sorted` restores depends on the
     iteration order of a Python `set`). -/
   def inv (c : Cfg) (cmp : Bool) : Ty → Bool
     | .scalar _ _ => true
-    | .pair a l r =>
-      (cmp || namesNodup (pairLayout (.pair a l r)))
-        && (if l.isFlatPair then leavesInv c cmp l else inv c cmp l)
+    | .pair _ l r =>
+      (if l.isFlatPair then leavesInv c cmp l else inv c cmp l)
         && (if r.isFlatPair then leavesInv c cmp r else inv c cmp r)
-    | .or a l r =>
-      namesNodup (orLayout (.or a l r))
-        && (if l.isOr then orLeavesInv c cmp l else inv c cmp l)
+    | .or _ l r =>
+      (if l.isOr then orLeavesInv c cmp l else inv c cmp l)
         && (if r.isOr then orLeavesInv c cmp r else inv c cmp r)
     | .option _ t => !t.isOption && inv c cmp t
     | .list _ t => !cmp && inv c false t
